@@ -9,6 +9,8 @@ import (
 	"go/token"
 	"go/types"
 	"sort"
+	"strconv"
+	"strings"
 )
 
 // compositeLits returns every composite literal in the package whose type
@@ -384,6 +386,19 @@ func (c *Ctx) lexTables() (*lexTables, error) {
 			}
 		}
 	}
+	if found != 3 && len(lt.Keywords) > 0 && (len(lt.OneRune) == 0 || len(lt.TwoRune) == 0) {
+		// the punctuation is not held in tables of a known form: read it off the interpreted start state — for every
+		// first rune (and second rune) the paths of lexStart tell apart, the token it emits
+		one, two := c.punctFromModel()
+		if len(lt.OneRune) == 0 && len(one) > 0 {
+			lt.OneRune = one
+			found++
+		}
+		if len(lt.TwoRune) == 0 && len(two) > 0 {
+			lt.TwoRune = two
+			found++
+		}
+	}
 	if found != 3 {
 		return nil, fmt.Errorf("expected the three lexer tables (keywords, one-rune, two-rune), found %d", found)
 	}
@@ -543,4 +558,55 @@ func (c *Ctx) runeSetOf(fd *ast.FuncDecl) (set []int64, ok bool) {
 	}
 	sort.Slice(set, func(i, j int) bool { return set[i] < set[j] })
 	return set, true
+}
+
+// punctFromModel derives the one- and two-rune token tables from the paths of the interpreted lexStart.
+func (c *Ctx) punctFromModel() (one, two map[string]string) {
+	one, two = map[string]string{}, map[string]string{}
+	start := c.stateFuncs()["lexStart"]
+	if start == nil {
+		return
+	}
+	unq := func(s string) (rune, bool) {
+		r, _, _, err := strconv.UnquoteChar(strings.Trim(s, "'"), '\'')
+		if err != nil || !strings.HasPrefix(s, "'") {
+			return 0, false
+		}
+		return r, true
+	}
+	for _, p := range c.lexStateModel(start).Paths {
+		var r1, r2 string
+		emits := []string{}
+		failed := false
+		for _, e := range p.Log {
+			switch {
+			case strings.HasPrefix(e, "#1=="):
+				r1 = strings.TrimPrefix(e, "#1==")
+			case strings.HasPrefix(e, "#2=="):
+				r2 = strings.TrimPrefix(e, "#2==")
+			case strings.HasPrefix(e, "emit:"):
+				emits = append(emits, strings.TrimPrefix(e, "emit:"))
+			case e == "fail" || e == "error":
+				failed = true
+			}
+		}
+		if r1 == "" || r1 == "eof" || len(emits) != 1 || failed || p.Ret != "lexStart" {
+			continue
+		}
+		a, ok := unq(r1)
+		if !ok {
+			continue
+		}
+		if r2 == "" {
+			one[string(a)] = emits[0]
+			continue
+		}
+		b, ok := unq(r2)
+		if ok {
+			two[string(a)+string(b)] = emits[0]
+		}
+	}
+	// a rune that starts a two-rune token and stands for a token of its own otherwise is in both tables; a rune
+	// that only starts a two-rune token (no path emits for it alone) is in the second only: as read above
+	return
 }
